@@ -86,7 +86,11 @@ def reshapeF (shape : List ℕ) (rows : List P) : List P :=
     `int n`: text accepted by both `int()` and `float()`; `num x`: text accepted by `float()` only
     (has a `.`/exponent); `word s`: anything else. -/
 inductive Token (K : Type) where
+  /-- the canonical decimal spelling of `n` (what `'%d' % n` prints: `0`, `-3`, `17`) -/
   | int (n : Int)
+  /-- any other spelling `int()` accepts for `n` (`00`, `+0`, `-0`, `007`): numerically the same,
+      but different as a string (the primitive readers compare a flag line with the string `'0'`) -/
+  | intNC (n : Int)
   | num (x : K)
   | word (s : String)
   | nl
@@ -101,11 +105,13 @@ def Token.isNl : Token K → Bool
 /-- `int(tok)` -/
 def Token.toInt? : Token K → Option Int
   | .int n => some n
+  | .intNC n => some n
   | _ => none
 
 /-- `float(tok)` -/
 def Token.toFloat? [IntCast K] : Token K → Option K
   | .int n => some (n : K)
+  | .intNC n => some (n : K)
   | .num x => some x
   | _ => none
 
@@ -165,6 +171,29 @@ def g2Write (o : Obj K) : List (Token K) :=
    .int ((o.ncomp : Int) - boolInt o.rational), .int (boolInt o.rational), .nl]
   ++ o.bases.flatMap basisToks
   ++ (flattenF o.shape o.cps).flatMap rowToks
+
+/-! ### The writer with its number formatting
+
+`'%.16g' % x` followed by `float()` on the reading side is an idempotent rounding `rnd : K → K`
+(`rnd (rnd x) = rnd x`); the model keeps it abstract.  `g2WriteR rnd` prints `rnd x` wherever the
+code prints `'%.16g' % x`; `g2Write` is the instance `rnd = id`. -/
+
+def basisToksR (rnd : K → K) (b : IOBasis K) : List (Token K) :=
+  [.int ((b.knots.length : Int) - b.order), .int b.order, .nl] ++ b.knots.map (fun x => .num (rnd x)) ++ [.nl]
+
+def rowToksR (rnd : K → K) (row : List K) : List (Token K) := row.map (fun x => .num (rnd x)) ++ [.nl]
+
+/-- `G2.write(obj)` (non-periodic Curve/Surface/Volume) with the number formatting `rnd`. -/
+def g2WriteR (rnd : K → K) (o : Obj K) : List (Token K) :=
+  [.int (g2TypeCode o.pardim), .int 1, .int 0, .int 0, .nl,
+   .int ((o.ncomp : Int) - boolInt o.rational), .int (boolInt o.rational), .nl]
+  ++ o.bases.flatMap (basisToksR rnd)
+  ++ (flattenF o.shape o.cps).flatMap (rowToksR rnd)
+
+/-- Every number of the object (knots, control point components) through `rnd`. -/
+def Obj.mapNum (rnd : K → K) (o : Obj K) : Obj K :=
+  { o with bases := o.bases.map fun b => { b with knots := b.knots.map rnd },
+           cps := o.cps.map (List.map rnd) }
 
 /-! ## `G2.read` for spline records -/
 
@@ -345,40 +374,75 @@ def splitLines : ℕ → List (Token K) → List (List (Token K))
 def splKnots (tol : K) : List (Int × Int) → List (List (Token K)) →
     Except PyErr (List (IOBasis K) × List (List (Token K)))
   | [], rest => .ok ([], rest)
-  | (p, n) :: more, rest => do
-      if p + n < 0 then throw .value                       -- islice with a negative count
-      let cnt := (p + n).toNat
-      let some kts := (rest.take cnt).mapM lineFloat | throw .value
-      let b ← mkBasis tol p kts
-      let (bs, rest') ← splKnots tol more (rest.drop cnt)
-      return (b :: bs, rest')
+  | (p, n) :: more, rest =>
+    if p + n < 0 then .error .value                          -- islice with a negative count
+    else
+      match (rest.take (p + n).toNat).mapM lineFloat with
+      | none => .error .value
+      | some kts =>
+        match mkBasis tol p kts with
+        | .error e => .error e
+        | .ok b =>
+          match splKnots tol more (rest.drop (p + n).toNat) with
+          | .error e => .error e
+          | .ok (bs, rest') => .ok (b :: bs, rest')
+
+/-- The header line `C pardim physdim 0` (`assert version[0] == 'C'`, `assert version[3] == '0'`,
+    `int(version[1])`, `int(version[2])`); values below 1 are outside the model. -/
+def splHeader (version : List (Token K)) : Except PyErr (ℕ × ℕ) :=
+  match version with
+  | c :: pd :: ph :: v3 :: _ =>
+    match c with
+    | .word "C" =>
+      match v3 with
+      | .int 0 =>
+        match pd.toInt? with
+        | none => .error .value
+        | some a =>
+          match ph.toInt? with
+          | none => .error .value
+          | some b => if a < 1 ∨ b < 1 then .error .value else .ok (a.toNat, b.toNat)
+      | _ => .error .other
+    | _ => .error .other
+  | _ => .error .index
+
+/-- Everything after the header line. -/
+def splBody (tol : K) (pardim physdim : ℕ) (ls : List (List (Token K))) : Except PyErr (Obj K) :=
+  match (ls.take pardim).mapM lineInt with
+  | none => .error .value
+  | some orders =>
+    match ((ls.drop pardim).take pardim).mapM lineInt with
+    | none => .error .value
+    | some ncoeffs =>
+      if orders.length ≠ pardim ∨ ncoeffs.length ≠ pardim then .error .other
+      else if ncoeffs.any (· < 0) then .error .value
+      else
+        match ls.drop (2 * pardim) with
+        | [] => .error .other                               -- next(lines): spline accuracy
+        | _acc :: ls3 =>
+          match splKnots tol (orders.zip ncoeffs) ls3 with
+          | .error e => .error e
+          | .ok (bases, ls4) =>
+            let shape := ncoeffs.map Int.toNat
+            let tot := shape.prod * physdim
+            match (ls4.take tot).mapM lineFloat with
+            | none => .error .value
+            | some vals =>
+              if vals.length ≠ tot then .error .value        -- reshape of a short array
+              else .ok { bases := bases, shape := shape, ncomp := physdim,
+                         cps := splCps physdim shape vals, rational := false }
 
 /-- `SPL.read`.  Header `C pardim physdim 0`, `pardim` orders, `pardim` coefficient counts, one
     skipped line, the knots one per line, the coefficients one per line (component-major, grid in
     first-index-fastest order); the object is built with `raw=True`.
     `AssertionError`/`StopIteration` are reported as `Exception`. -/
-def splRead (tol : K) (toks : List (Token K)) : Except PyErr (Obj K) := do
-  let version :: ls := splitLines (toks.length + 1) toks | throw .other
-  let c :: pd :: ph :: v3 :: _ := version | throw .index
-  let .word "C" := c | throw .other                        -- assert version[0] == 'C'
-  let .int 0 := v3 | throw .other                          -- assert version[3] == '0'
-  let some pardimI := pd.toInt? | throw .value
-  let some physdimI := ph.toInt? | throw .value
-  if pardimI < 1 ∨ physdimI < 1 then throw .value          -- outside the model
-  let pardim := pardimI.toNat
-  let physdim := physdimI.toNat
-  let some orders := (ls.take pardim).mapM lineInt | throw .value
-  let some ncoeffs := ((ls.drop pardim).take pardim).mapM lineInt | throw .value
-  if orders.length ≠ pardim ∨ ncoeffs.length ≠ pardim then throw .other
-  if ncoeffs.any (· < 0) then throw .value
-  let shape := ncoeffs.map Int.toNat
-  let _acc :: ls3 := ls.drop (2 * pardim) | throw .other   -- next(lines): spline accuracy
-  let (bases, ls4) ← splKnots tol (orders.zip ncoeffs) ls3
-  let tot := shape.prod * physdim
-  let some vals := (ls4.take tot).mapM lineFloat | throw .value
-  if vals.length ≠ tot then throw .value                   -- reshape of a short array
-  return { bases := bases, shape := shape, ncomp := physdim,
-           cps := splCps physdim shape vals, rational := false }
+def splRead (tol : K) (toks : List (Token K)) : Except PyErr (Obj K) :=
+  match splitLines (toks.length + 1) toks with
+  | [] => .error .other
+  | version :: ls =>
+    match splHeader version with
+    | .error e => .error e
+    | .ok (pardim, physdim) => splBody tol pardim physdim ls
 
 end SPL
 
